@@ -606,6 +606,36 @@ func c17Transformer(c *core.Ctx, r *rand.Rand) {
 		c.Violation("C17/registered-pattern", fmt.Sprintf("the handler registered (bottom-up) as %q was told %q by OnRegister", full, told), map[string]interface{}{"pattern": full, "told": told})
 		return
 	}
+	// a listener registered on the same positions under another tag name makes the handler's
+	// registration a conflict (routing could report only one of the two names, and the id
+	// transformer looks the id up under the handler's); with the same name both are accepted
+	rel := strings.Join(toks, ".")
+	for _, same := range []bool{false, true} {
+		lp := rel
+		if !same {
+			lp = strings.Replace(rel, "$id", "$key", 1)
+		}
+		m3 := res.NewMux("svc")
+		pn := try(func() {
+			m3.AddListener(lp, func(*res.Event) {})
+			m3.Handle(rel)
+		})
+		c.Obs("listener_then_handler_registrations", 1)
+		if !same && pn == nil {
+			c.Violation("C17/register-accepts-tag-conflict", fmt.Sprintf("AddListener(%q) then Handle(%q) were both accepted: the same position under two placeholder names", lp, rel), map[string]interface{}{"listener": lp, "handler": rel})
+			return
+		}
+		if same {
+			var mh3 *res.Match
+			if pn == nil {
+				pn = try(func() { mh3 = m3.GetHandler(rid) })
+			}
+			if pn != nil || mh3 == nil || tr.RIDToID(rid, mh3.Params) != id {
+				c.Violation("C17/transformer-roundtrip:listener-first", fmt.Sprintf("listener and handler on %q (listener first): rid %q is not routed back to id %q (panic: %v)", rel, rid, id, pn), map[string]interface{}{"pattern": rel, "rid": rid})
+				return
+			}
+		}
+	}
 	rid2 := tr.IDToRID(id, nil, res.Pattern(told[0]))
 	var mh2 *res.Match
 	if pn := try(func() { mh2 = svc.GetHandler(rid2) }); pn != nil || mh2 == nil || tr.RIDToID(rid2, mh2.Params) != id {
